@@ -52,6 +52,8 @@ class NumbaMPIBackend(NumbaBackend):
         num_axes = bc.grid.num_axes
         axis = bc.axis
         idx = -1 if bc.upper else 0  # index for writing data
+        # factor applied to received data (-1 at the seam of an anti-periodic axis)
+        sign = -1 if bc.flip_sign else 1
 
         if num_axes == 1:
 
@@ -61,36 +63,48 @@ class NumbaMPIBackend(NumbaBackend):
                     # treats differently, so `numba_mpi.mpi_recv` fails
                     buffer = np.empty((), dtype=data_full.dtype)
                     mpi_recv(buffer, cell, flag)
-                    data_full[..., idx] = buffer
+                    data_full[..., idx] = sign * buffer
                 else:
                     mpi_recv(data_full[..., idx], cell, flag)
+                    if sign != 1:
+                        data_full[..., idx] *= sign
 
         elif num_axes == 2:
             if axis == 0:
 
                 def ghost_cell_setter(data_full: NumericArray, args=None) -> None:
                     mpi_recv(data_full[..., idx, 1:-1], cell, flag)
+                    if sign != 1:
+                        data_full[..., idx, 1:-1] *= sign
 
             else:
 
                 def ghost_cell_setter(data_full: NumericArray, args=None) -> None:
                     mpi_recv(data_full[..., 1:-1, idx], cell, flag)
+                    if sign != 1:
+                        data_full[..., 1:-1, idx] *= sign
 
         elif num_axes == 3:
             if axis == 0:
 
                 def ghost_cell_setter(data_full: NumericArray, args=None) -> None:
                     mpi_recv(data_full[..., idx, 1:-1, 1:-1], cell, flag)
+                    if sign != 1:
+                        data_full[..., idx, 1:-1, 1:-1] *= sign
 
             elif axis == 1:
 
                 def ghost_cell_setter(data_full: NumericArray, args=None) -> None:
                     mpi_recv(data_full[..., 1:-1, idx, 1:-1], cell, flag)
+                    if sign != 1:
+                        data_full[..., 1:-1, idx, 1:-1] *= sign
 
             else:
 
                 def ghost_cell_setter(data_full: NumericArray, args=None) -> None:
                     mpi_recv(data_full[..., 1:-1, 1:-1, idx], cell, flag)
+                    if sign != 1:
+                        data_full[..., 1:-1, 1:-1, idx] *= sign
 
         else:
             raise NotImplementedError
